@@ -45,6 +45,7 @@ class Ctx:
         self.selftest: Dict[str, Any] = {}
         self.t0 = time.time()
         self.only_key: Optional[str] = None   # replay mode: restrict reporting to one key
+        self.unrecognised: List[str] = []     # shape() mismatches: the rule cannot decide, the run gives no verdict
 
     # -- registration ------------------------------------------------------------------------
     def rule(self, rule_id: str, text: str, floor: int = 1) -> None:
@@ -67,6 +68,17 @@ class Ctx:
             getattr(node, 'lineno', 0) if node is not None else 0, bool(ok), detail))
         return bool(ok)
 
+    def shape(self, rule: str, ok: bool, mod: Optional[Module], node: Optional[ast.AST], detail: str,
+              func: Optional[str] = None, text: Optional[str] = None, file: Optional[str] = None) -> bool:
+        """An instance whose test is *recognition of an enumerated idiom* (typically a comparison with the normalised source
+        of a construct).  A match is a satisfied instance.  A mismatch is NOT a violation - a behaviour-preserving rewrite
+        would mismatch as well - but makes the run undecided (exit 2) unless a definite violation is found elsewhere."""
+        if ok:
+            return self.check(rule, True, mod, node, detail, func=func, text=text, file=file)
+        where = f'{file or (mod.relpath if mod is not None else "-")}:{getattr(node, "lineno", 0) if node is not None else 0}'
+        self.unrecognised.append(f'[{rule}] {where} in {func or "-"}: `{text or ""}` - idiom not recognised ({detail})')
+        return False
+
     def note(self, s: str) -> None:
         self.notes.append(s)
 
@@ -76,6 +88,13 @@ class Ctx:
         counts: Dict[str, int] = {r: 0 for r in self.rule_text}
         for i in self.instances:
             counts[i.rule] += 1
+        if self.unrecognised:
+            for u in self.unrecognised:
+                print(f'UNRECOGNISED property={self.prop} {u}')
+            if not any(not i.ok for i in self.instances):
+                raise AnalysisError(f'{len(self.unrecognised)} construct(s) no longer have an enumerated shape; no verdict: ' + '; '.join(self.unrecognised)[:600])
+            self.floors = {r: 0 for r in self.floors}
+            self.notes.append('partial verdict: some constructs were not recognised: ' + '; '.join(self.unrecognised)[:600])
         for r, fl in self.floors.items():
             if counts[r] < fl:
                 raise AnalysisError(f'rule {r} examined {counts[r]} instances, below its floor {fl} '
@@ -106,6 +125,8 @@ class Ctx:
         print(f'{self.prop} [{self.tier}]: {len(self.rule_text)} rules, {len(self.instances)} instances examined, '
               f'{n_ok} satisfied, {len(violations)} violations, {len(known_hits)} known findings, '
               f'{time.time() - self.t0:.2f}s')
+        if self.unrecognised and not violations:
+            raise AnalysisError(f'{len(self.unrecognised)} construct(s) no longer have an enumerated shape; no verdict (only known findings besides)')
         return 1 if violations else 0
 
     def write_evidence(self, consulted: List[str], counts: Dict[str, int], violations: List[Instance],
